@@ -37,7 +37,9 @@ UNIT is one of
   ``{"k":"alias","name","target"}``                              ``name = target`` (second binding of a class or function)
   ``{"k":"class","name","vis","bases":[[mod,name]],"root":None|"dict"|"list"|"Exception","abc":bool,
      "init":[PARAM]|None,"fields":[[name,literal]],"methods":[METHOD],"props":[[name,has_setter,HINT|None]],
-     "dunders":[str],"nested":[{"name","methods":[METHOD]}],"implements":bool}``
+     "dunders":[str],"nested":[{"name","methods":[METHOD]}],"implements":bool,
+     "generic":bool,"psub":[int]}``   generic: the class lists ``typing.Generic[T]``; psub: indices of "bases" written subscripted
+                                      (``Box[int]``, or ``Box[T]`` in a generic class) - only bases that are themselves "generic"
   ``{"k":"enum","name","vis","base":"Enum"|"IntEnum"|"Flag","members":[str],"methods":[METHOD]}``
 METHOD ``{"name","vis","flavor","params":[PARAM],"ret":HINT|None}``  flavor: plain|static|class|async|abstract|generator|cached|wrapped
 PARAM  ``{"name","hint":HINT|None,"default":bool,"kind":"pos"|"kwonly"|"varargs"|"varkw"}``
@@ -268,7 +270,12 @@ def _draw_class(draw: Any, mod: str, idx: int, words: list[str], table: dict[tup
     # keep only a linearisable (C3) list of bases; checked with the model's own C3, never by trial import
     while picked and not _linearisable(picked, abc, table):
         picked.pop()
-    unit: dict[str, Any] = {"k": "class", "name": name, "vis": vis, "bases": [list(b) for b in picked], "root": root, "abc": abc}
+    generic = draw(st.sampled_from([False, False, False, True])) if not simple or draw(st.booleans()) else False
+    while picked and not _linearisable(picked, abc, table, generic):
+        picked.pop()
+    psub = [i for i, b in enumerate(picked) if table[b].get("generic") and draw(st.sampled_from([True, True, False]))]
+    unit: dict[str, Any] = {"k": "class", "name": name, "vis": vis, "bases": [list(b) for b in picked], "root": root, "abc": abc,
+                            "generic": generic, "psub": psub}
     has_init = draw(st.sampled_from([True, True, False]))
     unit["init"] = _params(draw, hints, 3, allow_var=False) if has_init else None
     nf = draw(st.integers(0, 2))
@@ -296,14 +303,17 @@ def _unit_bases(u: dict[str, Any]) -> list[str]:
     bases = [f"{m}:{n}" for m, n in u["bases"]]
     if u.get("root"):
         bases.append(_EXT_ROOT[u["root"]])
+    if u.get("generic"):
+        bases.append("ext:typing.Generic")
     if u.get("abc"):
         bases.append("ext:abc.ABC")
     return bases
 
 
-def _linearisable(picked: list[tuple[str, str]], abc: bool, table: dict[tuple[str, str], dict[str, Any]]) -> bool:
+def _linearisable(picked: list[tuple[str, str]], abc: bool, table: dict[tuple[str, str], dict[str, Any]],
+                  generic: bool = False) -> bool:
     bases_of = {f"{m}:{n}": _unit_bases(u) for (m, n), u in table.items()}
-    bases_of["new:X"] = [f"{m}:{n}" for m, n in picked] + (["ext:abc.ABC"] if abc else [])
+    bases_of["new:X"] = [f"{m}:{n}" for m, n in picked] + (["ext:typing.Generic"] if generic else []) + (["ext:abc.ABC"] if abc else [])
     try:
         _c3("new:X", bases_of, {})
     except ValueError:
@@ -639,9 +649,12 @@ class _Renderer:
     }
 
     def klass(self, u: dict[str, Any]) -> None:
-        bases = [self.ref(m, n) for m, n in u["bases"]]
+        sub = "[T]" if u.get("generic") else "[int]"
+        bases = [self.ref(m, n) + (sub if i in u.get("psub", []) else "") for i, (m, n) in enumerate(u["bases"])]
         if u["root"]:
             bases.append(u["root"])
+        if u.get("generic"):
+            bases.append("typing.Generic[T]")
         if u["abc"]:
             bases.append("abc.ABC")
         self.lines.append(f"class {u['name']}" + (f"({', '.join(bases)})" if bases else "") + ":")
@@ -704,6 +717,8 @@ class _Renderer:
         if m["future"]:
             L.append("from __future__ import annotations")
         L += ["import abc", "import functools", "import typing"]
+        if any(u.get("generic") for u in self.units):
+            L += ["", 'T = typing.TypeVar("T")']
         enum_bases = sorted({u["base"] for u in self.units if u["k"] == "enum"})
         if enum_bases:  # only what is used: pynguin's C-extension probe calls inspect.getsource on every class in the namespace
             L.append(f"from enum import {', '.join(enum_bases)}")
@@ -821,6 +836,8 @@ def describe(model: dict[str, Any]) -> dict[str, Any]:
                 bases = [f"{m}:{n}" for m, n in u["bases"]]
                 if u["root"]:
                     bases.append(_EXT_ROOT[u["root"]])
+                if u.get("generic"):
+                    bases.append("ext:typing.Generic")  # a parameterised base counts as its origin
                 if u["abc"]:
                     bases.append("ext:abc.ABC")
                 bases_of[key] = bases
